@@ -188,7 +188,7 @@ PROPS = {
             'only the sequential stages are under contract: session hold-back/stamping (SESSION) and frame splitting (FRAMEENC); link-level split, reassembly and the codec round trip are separate units where built',
             'mpsc hand-offs, engine select! loops, credit/window liveness under scheduling, and all configurations x schedules are NOT decided']),
     'C08': dict(
-        units=['LINKFLOW', 'SENDSPLIT', 'PRODUCER', 'ACCSESS', 'SESSION', 'WIRING', 'ACCLINK'], kani=[], level='proof', title='Sender link credit',
+        units=['LINKFLOW', 'SENDSPLIT', 'PRODUCER', 'ACCSESS', 'SESSION', 'WIRING', 'ACCLINK', 'LINK'], kani=[], level='proof', title='Sender link credit',
         lemmas={'LINKFLOW': ['lemma_c08_consume_preserves_limit', 'lemma_c08_flow_establishes_limit']},
         assumptions=[ASYNC,
             'NOT DECIDED: "a send waiting for credit completes however the grant races with the wait" (notified().await vs notify_waiters is a two-task schedule property; no thread model in either verifier)',
